@@ -1062,7 +1062,72 @@ func exprTypeText(x Expr) string {
 
 // applyOnReturn: the callee's ghost updates take effect in the caller's state.
 func (t *fnTrans) applyOnReturn(fc *FuncContract, post *Env) {
-	for _, gs := range fc.OnReturn {
+	t.applyGhostSets(fc.OnReturn, post)
+}
+
+// spawn: `go f(args)`. The goroutine's body is not followed; the only effect on the spawner's state is
+// the `onspawn` ghost updates of f's contract (specification-only: they record that, and with which
+// arguments, the goroutine was started).
+func (t *fnTrans) spawn(in *ssa.Go) {
+	c := &in.Call
+	if _, ok := c.Value.(*ssa.Builtin); ok {
+		return
+	}
+	key := calleeKey(c)
+	fn := c.StaticCallee()
+	var fc *FuncContract
+	if fn != nil {
+		fc = t.eng.contractOf(fn)
+	}
+	if fc == nil {
+		fc = t.eng.contracts.Externs[key]
+	}
+	if fc == nil || len(fc.OnSpawn) == 0 {
+		return
+	}
+	var args []Val
+	var argTys []types.Type
+	if c.IsInvoke() {
+		args = append(args, t.val(c.Value))
+		argTys = append(argTys, c.Value.Type())
+	}
+	for _, a := range c.Args {
+		args = append(args, t.val(a))
+		argTys = append(argTys, a.Type())
+	}
+	pkg := t.fn.Pkg.Pkg
+	if fc.PkgPath != "" {
+		if p := t.eng.typesPkg(fc.PkgPath); p != nil {
+			pkg = p
+		}
+	}
+	pre := t.cur.clone()
+	env := &Env{t: t, st: t.cur, old: pre, vars: map[string]bound{}, pkg: pkg}
+	var names []string
+	if fc.Extern {
+		names = fc.Params
+	} else {
+		if c.Signature().Recv() != nil && fn != nil {
+			names = append(names, fc.RecvName)
+		}
+		names = append(names, fc.Params...)
+	}
+	for i, a := range args {
+		if i >= len(names) {
+			break
+		}
+		if a.P != nil && !(a.P.Ref != "" && a.P.ArrOf == "" && len(a.P.Sels) == 0) {
+			env.vars[names[i]] = bound{Val{P: a.P, T: ""}, argTys[i]}
+			continue
+		}
+		env.vars[names[i]] = bound{Val{T: t.term(a)}, argTys[i]}
+	}
+	t.usedContracts[key] = fc
+	t.applyGhostSets(fc.OnSpawn, env)
+}
+
+func (t *fnTrans) applyGhostSets(sets []*GhostSet, post *Env) {
+	for _, gs := range sets {
 		g, ok := t.eng.contracts.Ghosts[gs.Var]
 		if !ok {
 			t.errorf("onreturn: unknown ghost %s", gs.Var)
